@@ -273,4 +273,11 @@ def run(repo, tier):
          '(i1 in self._i_range) and (j1 in self._j_range) and (i2 in self._i_range) and (j2 in self._j_range)',
          'a sector is sampled only if all four corners of its pixel box lie inside the image (lower corners too: negative indices wrap around)'),
     ])
+    apply_specs(repo, res, [
+        ('photutils.isophote.ellipse.Ellipse.fit_image', 'test', 'sma <= max(minsma, 0.5)',
+         'the inward sweep stops when the NEXT sma would fall below max(minsma, 0.5)'),
+        ('photutils.isophote.ellipse.Ellipse.fit_isophote', 'stmt',
+         'isophote = self._non_iterative(sma, step, linear, geometry, sclip, nclip, integrmode)',
+         'non-iterative extraction uses the geometry of the last fitted isophote, not the first guess'),
+    ])
     return res
